@@ -2,9 +2,9 @@ SPECIFICATION Spec
 CONSTANTS D = 2
           NPre = 4
           NE = 4
-          EMin = 1
-          EMax = 2
-          Dirs = {"ltr", "rel"}
+          EMin = 0
+          EMax = 1
+          Dirs = {"rtl", "ltr", "rel"}
           Caps = {1, 2, 3, 99}
           Canon = TRUE
 INVARIANT ErrBound
